@@ -48,7 +48,7 @@ class TLCResult:
         )
 
 
-_COV = re.compile(r"^<(\w+) line \d+, col \d+ to line \d+, col \d+ of module (\w+)>: (\d+):(\d+)")
+_COV = re.compile(r"^<(\w+) line \d+, col \d+ to line \d+, col \d+ of module (\w+)(?: \([\d ]+\))?>: (\d+):(\d+)")
 _TOT = re.compile(r"^(\d+) states generated, (\d+) distinct states found")
 _DEPTH = re.compile(r"depth of the complete state graph search is (\d+)")
 _VFJ_PREFIX = '<<"VFJ", "'
